@@ -739,14 +739,9 @@ class Rtc(ContentElement):
 
   def push_child(self, child):
 
-    if isinstance(self.first_child(), Rt):
-      expect = (Rt,)
-    elif isinstance(self.first_child(), Rp) and isinstance(self.last_child(), Rp):
-      expect = (type(None),)
-    else:
-      expect = (Rt, Rp)
+    # children are either Rt* or Rp Rt* Rp: the latter can only be added whole, using `push_children`
 
-    if not isinstance(child, expect):
+    if isinstance(self.first_child(), Rp) or not isinstance(child, Rt):
       raise ValueError("Children of rtc do not conform to requirements")
 
     super().push_child(child)
